@@ -7,8 +7,11 @@ root=$(cd "$(dirname "$0")/.." && pwd)
 repo=${VERIF_REPO:-/repo}
 cd $root || exit 2
 out=$root/seeded/RESULTS.txt
+# SEEDED_IDS="id1 id2 ..." restricts the sweep (result then goes to seeded/RESULTS.subset.txt)
+dirs="seeded/*/"
+if [ -n "$SEEDED_IDS" ]; then out=$root/seeded/RESULTS.subset.txt; dirs=""; for i in $SEEDED_IDS; do dirs="$dirs seeded/$i/"; done; fi
 : > $out.tmp
-for d in seeded/*/; do
+for d in $dirs; do
   id=$(basename $d); prop=$(echo $id | cut -c1-3)
   [ -f $root/$d/patch.diff ] || continue
   git -C $repo diff --quiet || { echo "repo dirty"; exit 2; }
